@@ -92,6 +92,21 @@ def reg_work(res, tie, fmt, choice, fs, variant):
             res.violations.append({"why": f"registration accepted under {base} but rejected/changed under looser policy '{label}' {loose}: {c2.get('msg')}",
                                    "case": cases.reg_case(c, e1), "looser": cases.reg_case(c, e2),
                                    "match": {"op": "verify_reg", "relation": label}})
+    # one dict-form credential object presented twice (strict, then looser policy)
+    if "R.cred-type" not in fs:
+        import copy
+        obj = core.to_reg_json(c)
+        before = copy.deepcopy(obj)
+        e1 = _reg.expectation(req, r.roots, require_uv=bool(variant // 2 % 2))
+        first = cases.run_reg(c, e1, cred_obj=obj)
+        again = cases.run_reg(c, _reg.expectation(req, r.roots, require_uv=False, require_up=False), cred_obj=obj)
+        res.evaluations += 2
+        if first["k"] == "accept" and (again["k"] != "accept" or again["record"] != first["record"]):
+            res.violations.append({"why": f"one dict credential object: accepted, then rejected/changed under a looser policy when the same "
+                                          f"object is presented again: {again.get('msg') or again.get('lib')}",
+                                   "case": cases.reg_case(c, e1), "match": {"op": "verify_reg", "relation": "same-object"}})
+        if obj != before:
+            res.count("note:dict-credential-object-modified-by-the-call")
     # input forms
     e = _reg.expectation(req, r.roots)
     outcomes = {"record": cases.run_reg(c, e)}
@@ -137,6 +152,25 @@ def work(tasks, idx):
                                        "case": cases.auth_case(a, e), "looser": cases.auth_case(a, e2), "code": base, "code_looser": code2,
                                        "match": {"op": "verify_auth", "relation": label}})
             res.count("loosen:" + label)
+        # one credential object (dict form, then record form) presented under the strict policy and then under each looser
+        # one, the way an RP retries: the credential a caller passes stays the caller's
+        if "A.cred-type" not in fs:
+            import copy
+            for form, obj in (("dict", core.to_auth_json(a)), ("record", cases.auth_record(a))):
+                before = copy.deepcopy(obj)
+                first = cases.run_auth(a, e, cred_obj=obj)
+                res.evaluations += 1
+                for label, e2 in [("same-policy-again", e)] + loosenings(e):
+                    again = cases.run_auth(a, e2, cred_obj=obj)
+                    res.evaluations += 1
+                    if first["k"] == "accept" and (again["k"] != "accept" or again["record"] != first["record"]):
+                        res.violations.append({"why": f"one {form} credential object: accepted, then rejected/changed under '{label}' "
+                                                      f"when the same object is presented again: {again.get('msg') or again.get('lib')}",
+                                               "faults": list(fs), "case": cases.auth_case(a, e), "looser": cases.auth_case(a, e2),
+                                               "match": {"op": "verify_auth", "relation": "same-object-" + label}})
+                        break
+                if obj != before:     # not by itself something C20 speaks about: recorded in the evidence, not a violation
+                    res.count(f"note:{form}-credential-object-modified-by-the-call")
         # input forms: text, dict, record x bytes / bytes subclass / memoryview
         outcomes = {"record": base}
         if "A.cred-type" not in fs:   # the JSON forms always carry type public-key
